@@ -745,7 +745,7 @@ func (w *World) exec(line string) Result {
 			return w.realBlock()
 		}
 		return w.block()
-	case "tx":
+	case "tx", "sim":
 		return w.execTx(f)
 	case "dump":
 		return Result{Line: "ok"}
